@@ -562,6 +562,32 @@ def c01i(ctx):
                     if len(os_) != 1 or os_[0].kind != "call" or not (os_[0].callee() or "").endswith("Vec::<T>::new"):
                         ctx.fail(o, a, "%s: `cleaned_edges` is not one list that is only appended to (origins: %s)" % (
                             b.name, sorted({short(x.callee() or "") if x.kind == "call" else x.kind for x in os_})))
+    # polarity: the flag is raised where the per-callee answer says `repair needed`, not where it says it is not
+    for nm in ("Snapshot::recompute_decision_based_on_forward_edges", "Snapshot::check_callee_chunked"):
+        b = ctx.touch(prog.coroutine_of(nm))
+        for a in b.assigns(lambda st: st["rv"]["k"] == "use" and (st["rv"]["op"].get("c") or {}).get("s") == "true" and not st["lhs"][1]):
+            for sb in df.switches(b):
+                t = b.blocks[sb]["term"]
+                l = op_local(t["op"])
+                if l is None:
+                    continue
+                # the switch operand is (a copy of) the `repair_transitive_firewall_callees` field of a per-callee answer
+                def from_field(l_, depth=3):
+                    for st_ in b.assigns(lambda st, l_=l_: st["lhs"][0] == l_ and not st["lhs"][1] and st["rv"]["k"] == "use" and df.op_place(st["rv"]["op"]) is not None):
+                        pl_ = df.op_place(st_.node["rv"]["op"])
+                        if any(e.startswith("f:repair_transitive_firewall_callees") for e in pl_[1]):
+                            return True
+                        if not pl_[1] and depth > 0 and from_field(pl_[0], depth - 1):
+                            return True
+                    return False
+                if not from_field(l):
+                    continue
+                for v, tb in df.switch_edges(b, sb):
+                    if (a.bb == tb or b.edge_dominates((sb, tb), a.bb)) and a.bb in b.reachable([tb]) and a.bb not in b.reachable([x for vv, x in df.switch_edges(b, sb) if x != tb], removed_nodes=[sb]):
+                        n += 1
+                        pol = (v != 0 and v != "0") if v != "otherwise" else True
+                        if not pol:
+                            ctx.fail(o, a, "%s raises the firewall-repair flag when a callee answered that NO repair is needed (inverted test): the repair is skipped exactly when it is required" % nm)
     o.sites = n
     if n < 5:
         ctx.fail(o, "(program)", "expected >= 5 accumulator fields in the *Decision values of repair.rs, found %d" % n)
